@@ -350,7 +350,14 @@ class FileInfo(os.PathLike):
             for time in json_dict["times"]
         ]
 
-        return cls(json_dict["path"], times, json_dict["attr"])
+        path, attr = json_dict["path"], json_dict["attr"]
+        if not isinstance(path, str) \
+                or not (attr is None or isinstance(attr, dict)):
+            raise ValueError(
+                "path must be a string and attr a dictionary, not "
+                f"{path!r} and {attr!r}")
+
+        return cls(path, times, attr)
 
     @property
     def path(self):
